@@ -38,7 +38,9 @@ Record snap := mkSnap {
   sn_fbw : Z; sn_fbh : Z;          (* screen (= scaledScreen) size *)
   sn_maxrects : Z; sn_cmw : Z; sn_cmh : Z;
   sn_nscreens : Z;                 (* numberOfExtDesktopScreensHook *)
-  sn_bpp : Z                       (* cl->format.bitsPerPixel *)
+  sn_bpp : Z;                      (* cl->format.bitsPerPixel *)
+  sn_rdsc : Z;                     (* cl->requestedDesktopSizeChange: 0 generic, 1 this client, 2 another client *)
+  sn_dserr : Z                     (* cl->lastDesktopSizeChangeError *)
 }.
 
 Definition hdr : Type := (Z * Z * Z * Z * Z)%type.     (* x y w h encoding *)
@@ -136,29 +138,36 @@ Definition plan_regions (c1 : caps) (s : sends) (sn : snap) : plan :=
 
 (* the count stage and the emission stage *)
 (* the count stage as it is in the source: with or without the repair of F5 *)
-Definition announce_sel (g : cfg) := if g_wrap_coalesce g then announce_fixed else announce.
+Definition announce_sel (g : cfg) (pref : Z) (lastrect : bool) (cmw cmh maxrects : Z) (region copyl : list xywh) (npseudo : Z)
+  : option (Z * list xywh * bool * bool) :=
+  if g_wrap_coalesce g then announce_fixed (g_wrap_copy g) pref lastrect cmw cmh maxrects region copyl npseudo
+  else match announce pref lastrect cmw cmh maxrects region (Z.of_nat (length copyl)) npseudo with
+       | Some (n, r, lm) => Some (n, r, lm, true)
+       | None => None
+       end.
 
 Definition render_update (g : cfg) (c1 : caps) (s : sends) (sn : snap) (pl : plan) : caps * upd_out :=
-  let ncopy := Z.of_nat (length (pl_copy pl)) in
   let pref := c_pref c1 in
-  match announce_sel g pref (c_lastrect c1) (sn_cmw sn) (sn_cmh sn) (sn_maxrects sn) (pl_region pl) ncopy (n_pseudo s) with
+  match announce_sel g pref (c_lastrect c1) (sn_cmw sn) (sn_cmh sn) (sn_maxrects sn) (pl_region pl)
+                     (map to_xywh (pl_copy pl)) (n_pseudo s) with
   | None => (c1, UTrap 1)
-  | Some (n, region', lm) =>
+  | Some (n, region', lm, keepcopy) =>
       let c2 := if s_shape s then set_cursor_changed c1 false else c1 in
       let c3 := if s_pos s then set_cursor_moved c2 false else c2 in
       let ps := map PH (pseudo_hdrs c1 s sn (c_lastled c1)) in
+      let copies := if keepcopy then map PH (copy_hdrs (pl_copy pl)) else [] in
       match region_hdrs pref (emit_region pref (c_lastrect c1) (sn_cmw sn) (sn_cmh sn) region') with
       | None => (c3, UTrap 1)
       | Some rh =>
           let tail := if lm then [PH (0, 0, 0, 0, enc_LastRect)] else [] in
-          (c3, USent n (ps ++ map PH (copy_hdrs (pl_copy pl)) ++ rh ++ tail) lm false)
+          (c3, USent n (ps ++ copies ++ rh ++ tail) lm false)
       end
   end.
 
 (* NewFBSize / ExtDesktopSize shortcut at the top of the function *)
 Definition newfb_update (c : caps) (sn : snap) : caps * upd_out :=
   let c1 := set_fbpending c false in
-  let h := if c_extdesktop c then (0, 0, wire16 (sn_fbw sn), wire16 (sn_fbh sn), enc_ExtDesktopSize)
+  let h := if c_extdesktop c then (wire16 (sn_rdsc sn), wire16 (sn_dserr sn), wire16 (sn_fbw sn), wire16 (sn_fbh sn), enc_ExtDesktopSize)
            else (0, 0, wire16 (sn_fbw sn), wire16 (sn_fbh sn), enc_NewFBSize) in
   (c1, USent 1 [PH h] false false).
 
